@@ -64,7 +64,7 @@ theorem chain_tokens (P : BState → Nat → Prop) (hP : FrameClosed P) (rules :
     | false =>
       simp only at h
       obtain ⟨seg, h1, h2, h3⟩ := ih (fun q hq => hok q (by simp [hq])) (fun q hq => hmap q (by simp [hq])) s1
-        (hc.transfer hP (hr.frame _ _ _ _ _ hc hrs)) h
+        (hc.transfer hP (hr.frame _ _ _ _ _ hc hrs) (hr.miss _ _ _ _ hc hrs)) h
       exact ⟨seg, by rw [h1, hm.miss _ _ _ _ hc hrs], h2, h3⟩
 
 /-- **C03.loop_maps_staged** — whatever the rule chain (contracts assumed), whenever a block loop
@@ -111,7 +111,7 @@ theorem loop_maps_staged (P : BState → Nat → Prop) (hP : FrameClosed P) (rul
                     have : s.lines[line1]? = some l := hl
                     rw [this] at hl'; exact (Option.some.inj hl').symm
                   subst hll
-                  exact ⟨hlen, by omega, hend, ⟨l', hl, hne', by simpa using hnout⟩, hP s _ _ ⟨rfl, rfl, rfl, rfl⟩ hPs⟩
+                  exact ⟨hlen, by omega, hend, ⟨l', hl, hne', by simpa using hnout⟩, rfl, hP s _ _ ⟨⟨rfl, rfl⟩, rfl, rfl, rfl⟩ hPs⟩
                 obtain ⟨m', s2', hc', hfr2, hprog, hmiss⟩ := C01.chain_ok P hP rules hok { s with line := line1 } line1 endLine hctx
                 rw [hc] at hc'
                 simp only [Except.ok.injEq, Prod.mk.injEq] at hc'
@@ -127,7 +127,7 @@ theorem loop_maps_staged (P : BState → Nat → Prop) (hP : FrameClosed P) (rul
                     | true => rfl
                     | false => have := hmiss rfl; simp at this; omega
                   have hp := hprog hm
-                  have hlen2 : s2.lineMax + 1 ≤ s2.lines.length := by rw [hfr2.1, hfr2.2.1]; exact hlen
+                  have hlen2 : s2.lineMax + 1 ≤ s2.lines.length := by rw [hfr2.1.1, hfr2.2.1]; exact hlen
                   have hend2 : endLine ≤ s2.lineMax := by rw [hfr2.2.1]; exact hend
                   have hstage := hmaps hm
                   -- all continuations recurse on a state with the same tokens as s2
@@ -136,7 +136,7 @@ theorem loop_maps_staged (P : BState → Nat → Prop) (hP : FrameClosed P) (rul
                       blockLoop rules maxNesting endLine n l' he st = .ok s' →
                       ∃ new, s'.tokens = s.tokens ++ new ∧ Staged line s.lineMax new := by
                     intro l' he st htok hl hE hfe hle hrec
-                    have hPst : P st endLine := hP _ _ _ hfe (hP _ _ _ hfr2 (hP s _ _ ⟨rfl, rfl, rfl, rfl⟩ hPs))
+                    have hPst : P st endLine := hP _ _ _ hfe (hP _ _ _ hfr2 (hP s _ _ ⟨⟨rfl, rfl⟩, rfl, rfl, rfl⟩ hPs))
                     obtain ⟨new', hn1, hn2⟩ := ih l' he st s' hl hE hPst hrec
                     refine ⟨seg ++ new', ?_, ?_⟩
                     · rw [hn1, htok, hseg]; simp
@@ -149,9 +149,9 @@ theorem loop_maps_staged (P : BState → Nat → Prop) (hP : FrameClosed P) (rul
                     · split at h
                       · cases h
                       · split at h
-                        · exact fin (s2.line + 1) _ { s2 with tight := !hasEmpty, line := s2.line + 1 } rfl hlen2 hend2 ⟨rfl, rfl, rfl, rfl⟩ (by omega) h
-                        · exact fin s2.line _ { s2 with tight := !hasEmpty } rfl hlen2 hend2 ⟨rfl, rfl, rfl, rfl⟩ (Nat.le_refl _) h
-                    · exact fin s2.line _ { s2 with tight := !hasEmpty } rfl hlen2 hend2 ⟨rfl, rfl, rfl, rfl⟩ (Nat.le_refl _) h
+                        · exact fin (s2.line + 1) _ { s2 with tight := !hasEmpty, line := s2.line + 1 } rfl hlen2 hend2 ⟨⟨rfl, rfl⟩, rfl, rfl, rfl⟩ (by omega) h
+                        · exact fin s2.line _ { s2 with tight := !hasEmpty } rfl hlen2 hend2 ⟨⟨rfl, rfl⟩, rfl, rfl, rfl⟩ (Nat.le_refl _) h
+                    · exact fin s2.line _ { s2 with tight := !hasEmpty } rfl hlen2 hend2 ⟨⟨rfl, rfl⟩, rfl, rfl, rfl⟩ (Nat.le_refl _) h
     · simp only [Except.ok.injEq] at h; subst h; exact ⟨[], by simp, .nil _ _⟩
 
 /-- **C03.container_map** — a container rule (block quote, list item) runs a nested loop over
